@@ -298,7 +298,21 @@ def gen_case(rng, maxlen, stream):
     ops.append(["findall", ALL_PAIRS, 0])
     for t in rng.sample(TABLES, 2):
         ops.append(["table", t])
-    return dict(ops=ops, stream=stream, preview=rng.random() < 0.35)
+    preview = rng.random() < 0.35
+    if not preview:
+        # some group edits are WATCHED: an observer of every notification of that edit looks a few pairs up inside each
+        # callback (model: Kern.stepWatched / announce).  Only once groups and kerning are loaded (any earlier use
+        # since the last open has loaded them).
+        loaded = True
+        for i, op in enumerate(ops):
+            if op[0] == "open":
+                loaded = False
+            elif op[0] in ("gset", "gdel", "gclear", "gupdate") and loaded and rng.random() < 0.3:
+                ops[i] = ["watch", op, [list(p) for p in rng.sample(ALL_PAIRS, rng.randint(1, 4))], rng.choice([0, 0, 7])]
+            elif op[0] in ("find", "findall", "table", "gset", "gdel", "gclear", "gupdate", "kset", "kdel", "kclear",
+                           "kupdate", "gdump", "kdump"):
+                loaded = True
+    return dict(ops=ops, stream=stream, preview=preview)
 
 
 def generate(rng, tier):
@@ -362,6 +376,8 @@ def enc_op(op):
         return [Atom("extgroups"), _eg(op[1])]
     if k == "extkerning":
         return [Atom("extkerning"), _ek(op[1])]
+    if k == "watch":
+        return [Atom("watch"), enc_op(op[1]), [list(p) for p in op[2]], op[3]]
     raise ValueError(op)
 
 
@@ -577,9 +593,28 @@ class World(object):
             self.ext_kerning(op[1])
             return ok
         f = self.font
+        if k == "watch":
+            inner, pairs, d = op[1], op[2], op[3]
+            rec = []
+
+            class _W(object):
+                def cb(self_, notification):
+                    rec.append([notification.name, [self._int(f.kerning.find((a, b), d)) for a, b in pairs]])
+            wt = _W()
+            names = ("Groups.GroupSet", "Groups.GroupDeleted", "Groups.Cleared", "Groups.Updated", "Groups.Changed")
+            for n in names:
+                f.dispatcher.addObserver(wt, "cb", n, None)
+            self.plain = True
+            try:
+                out = self.do(inner)
+            finally:
+                self.plain = False
+                for n in names:
+                    f.dispatcher.removeObserver(wt, n, None)
+            return [Atom("watched"), out, rec]
         # the same edit in the different spellings the dict API offers (the model sees one operation): every one of
         # them must announce the change, or the derived tables go stale
-        v = self.nops % 4
+        v = 0 if getattr(self, "plain", False) else self.nops % 4
         self.nops += 1
         if k == "gset":
             g = f.groups
@@ -729,6 +764,23 @@ def check_step(w, ops, i, out, stats):
     """the property on one observation of the implementation; returns a violation record or None"""
     op = ops[i]
     k = op[0]
+    if k == "watch" and isinstance(out, list) and out and out[0] == "watched":
+        # what the watcher read inside the callbacks of the edit: the contents were already the new ones
+        shadow = w.sg is not None and w.sk is not None
+        f = w.font
+        groups = dict((n, list(ms)) for n, ms in (w.sg if shadow else f.groups).items())
+        kerning = dict((w.sk if shadow else f.kerning).items())
+        if not rules_hold(groups):
+            return None
+        for name, vals in out[2]:
+            stats["watched-reads"] = stats.get("watched-reads", 0) + len(vals)
+            for (a, b), v in zip(op[2], vals):
+                allowed, tier, both = ref_find(kerning, groups, a, b, op[3])
+                if v not in allowed:
+                    return dict(clause="C19/find", signature="C19/find/%s/inside-callback/%s" % (tier, name), step=i, op=op,
+                                pair=[a, b], expected=sorted(allowed), observed=v, groups=groups,
+                                kerning=[[x, y, z] for (x, y), z in kerning.items()])
+        return None
     if k not in LOOKUPS or (isinstance(out, list) and out and out[0] == "err"):
         return None
     f = w.font
@@ -778,6 +830,9 @@ def run_impl(case):
         filled = edited_after_fill = observed_after_edit = False
         for i, op in enumerate(ops):
             k = op[0]
+            if k == "watch":
+                stats["op.watch"] = stats.get("op.watch", 0) + 1
+                k = op[1][0]
             if k in GROUP_EDITS:
                 # statistics only (peeks without triggering the lazy load): was anything cached when the edit came?
                 g = w.font._groups
